@@ -5,6 +5,7 @@ import DimModel.Driver.Codec
 import DimModel.Spec.C01
 import DimModel.Spec.C02
 import DimModel.Spec.C07
+import DimModel.Lib.Init
 open Lean
 namespace DimModel.Driver
 open DimModel.Codec
@@ -60,6 +61,30 @@ def handle (op : String) (req : Json) : P (List (String × Json)) := do
     let tmpl ← listOf axis (← fld req "template")
     let fk ← kind (← fld req "fillkind")
     pure [("lib", encExcept encDimArray (Lib.reindexLike a tmpl Cell.fill fk false none))]
+  | "construct_group" => do
+    let shape ← listOf nat (← fld req "shape")
+    let vk ← kind (fldD req "vkind" (Json.str "f"))
+    let lk (j : Json) : P (List Label × Kind) := do
+      pure ((← listOf label (← fld j "labels")), (← kind (← fld j "kind")))
+    let named (j : Json) : P (String × List Label × Kind) := do
+      let x ← lk j; pure ((← str (← fld j "name")), x.1, x.2)
+    let one (v : Json) : P Json := do
+      let dims ← optOf (listOf str) (fldD v "dims" Json.null)
+      let argj ← fld v "arg"
+      let items ← arr (fldD argj "items" (Json.arr #[]))
+      let arg ← match (← str (← fld argj "form")) with
+        | "none" => pure Lib.AxesArg.none
+        | "lists" => do pure (Lib.AxesArg.lists (← items.toList.mapM lk))
+        | "pairs" => do pure (Lib.AxesArg.pairs (← items.toList.mapM named))
+        | "objs" => do pure (Lib.AxesArg.objs (← items.toList.mapM axis))
+        | "dict" => do pure (Lib.AxesArg.dict (← items.toList.mapM named))
+        | "names" => do pure (Lib.AxesArg.names (← items.toList.mapM str))
+        | f => throw s!"bad axes form {f}"
+      let vals : NDArr Cell := { shape := shape, get := fun i => Cell.src 0 (ravel shape i) }
+      pure (encExcept encDimArray (Lib.construct vals vk arg dims))
+    let vs ← arr (← fld req "variants")
+    let rs ← vs.toList.mapM one
+    pure [("lib", Json.arr rs.toArray)]
   | "union" => do
     let a ← axis (← fld req "a")
     let b ← axis (← fld req "b")
